@@ -110,9 +110,26 @@ def r1_inventory(rep, facts, cg):
     for (fn, kind, what), n in sites.items():
         if kind == 'assert' and what.startswith('overflow:'):
             arith_found[fn] = arith_found.get(fn, 0) + n
+    # likewise the sites that address an element of a sequence the function was given (`p[p.len() - 1]`, `p.split_last().expect(..)`,
+    # `p.last().unwrap()`): one reason (the sequence is non-empty / the position is in range) covers them, whichever spelling is used
+    STD_INDEX = ('::index', 'core::str::traits::index', 'core::slice::index::index', 'core::array::index')
+    positional = lambda kind, what: (kind == 'index' and what in STD_INDEX) or (kind == 'assert' and what in ('bounds', 'overflow:Sub')) or \
+        (kind == 'unwrap' and what.startswith('Option::')) or kind == 'vec-op'
+    pos_allow, pos_found = {}, {}
+    for (fn, kind, what), e in allow.items():
+        if positional(kind, what):
+            pos_allow[fn] = pos_allow.get(fn, 0) + e['count']
+    for (fn, kind, what), n in sites.items():
+        if positional(kind, what):
+            pos_found[fn] = pos_found.get(fn, 0) + n
     for key, n in sorted(sites.items()):
         e = allow.get(key)
         k = f'{key[0]}|{key[1]}|{key[2]}'
+        if positional(key[1], key[2]) and key[0] in pos_allow and pos_found[key[0]] <= pos_allow[key[0]] and (e is None or n > e['count']) and \
+                any(kd == 'index' or wh == 'bounds' for (fn, kd, wh) in allow if fn == key[0]):
+            any_e = [v for (fn, kind, what), v in allow.items() if fn == key[0] and positional(kind, what)]
+            rep.ok(R, k, f'x{n} (element-position sites of this function: {pos_found[key[0]]} found, {pos_allow[key[0]]} reviewed): {any_e[0]["reason"]}', where[key])
+            continue
         if key[1] == 'assert' and key[2].startswith('overflow:') and key[0] in arith_allow and arith_found[key[0]] <= arith_allow[key[0]] and (e is None or n > e['count']):
             any_e = [v for (fn, kind, what), v in allow.items() if fn == key[0] and kind == 'assert' and what.startswith('overflow:')]
             rep.ok(R, k, f'x{n} (arithmetic checks of this function: {arith_found[key[0]]} found, {arith_allow[key[0]]} reviewed): {any_e[0]["reason"]}', where[key])
@@ -277,6 +294,10 @@ def r6_map_protocol(rep, facts):
             if n.get('k') == 'if' and mentions_keylocal(n['cond']) and any(x.get('k') == 'mcall' and x.get('name') == 'is_none' for x in walk(n['cond'])) \
                     and any(x.get('k') == 'ret' for x in walk(n['then'])):
                 guards.append(pos[id(n)])
+            # `let Some(key) = map.next_key()? else { return .. };`
+            if n.get('k') == 'let' and 'else' in n and 'init' in n and some(n['pat']) and (has_key(n['init']) or mentions_keylocal(n['init'])) \
+                    and any(x.get('k') in ('ret', 'break') or (x.get('k') == 'call' and 'panic' in (peel(x.get('f', {})).get('path') or '')) for x in walk(n['else'])):
+                guards.append(max(pos[id(x)] for x in walk(n)))
             if n.get('k') == 'match' and 'TryDesugar' not in (n.get('src') or '') and (mentions_keylocal(n['scrut']) or has_key(n['scrut'])):
                 for arm in n['arms']:
                     if none(arm['pat']) and not some(arm['pat']) and any(x.get('k') == 'ret' for x in walk(arm['body'])):
